@@ -554,17 +554,11 @@ def oracle(case, obs):
             a, b = _series(prev), _series(st)
             changed = [k for k in b if k in a and a[k] != b[k]]
             if changed:
-                tgt = _target_names(op)
-                only_data = all(a[k][0] == b[k][0] and a[k][1] == b[k][1] for k in changed)
-                in_place = (op[0] == 'setitem' and op[1][0] == 'sl') or (
-                    (op[0] == 'setattr' or (op[0] == 'setitem' and op[1][0] == 'n')) and op[2][0] == 'A')
-                # the kept finding: an IN-PLACE copy (label slice, or whole-series assignment of an ndarray) whose element cast
-                # fails part-way. A list / scalar whole-series assignment, a label assignment etc. must be atomic.
-                if in_place and only_data and out in ('ValueError', 'TypeError', 'OverflowError') and set(changed) <= set(tgt):
-                    bad('in-place-assign|partial-write', 'op %d %s on %s raised %s after NumPy had already written the leading cells '
-                        'of the series (element cast failed part-way)' % (i, op[0], tgt, out))
-                else:
-                    bad('failed-op|series-changed', 'op %d %s raised %s but series %s changed' % (i, op[0], out, changed))
+                # (fix 5dde979: also the in-place paths convert the operand before the first cell is written)
+                bad('failed-op|series-changed', 'op %d %s on %s raised %s but series %s changed' % (i, op[0], _target_names(op), out, changed))
+            other = [k for k in ('adict', 'reg', 'strict', 'names', 'span') if k in st and st[k] != prev.get(k)]
+            if other:
+                bad('failed-op|state-changed', 'op %d %s raised %s but the object differs afterwards in %s' % (i, op[0], out, other))
         # unknown / duplicate names must raise
         if op[0] == 'setitem' and len(op[1]) > 1 and op[1][1] not in prev['index'] and out == 'ok':
             bad('setitem|unknown-name-not-rejected', "op %d: obj[%r, ...] = v with %r not a variable did not raise" % (i, op[1][1], op[1][1]))
@@ -597,8 +591,8 @@ def oracle(case, obs):
         if prev['strict'] and op[0] == 'setattr' and op[1] == 'strict' and out == 'AttributeError':
             bad('strict|toggle-blocked', 'op %d: strict=True and obj.strict = v raised AttributeError' % i)
         if prev['strict'] and op[0] == 'setattr' and op[1] == 'values' and out == 'AttributeError':
-            # `values` replacement is one of the public operations and `values` an existing name of the class: it must keep working
-            bad('strict|values-setter-blocked', 'op %d: strict=True and obj.values = v raised AttributeError (%s)' % (i, stp.get('msg', '')[:60]))
+            # `values` is a property of the class, not a new attribute: the guard lets it through (fix 49a73ab)
+            bad('strict|class-property-blocked', 'op %d: strict=True and obj.values = v raised AttributeError (%s)' % (i, stp.get('msg', '')[:60]))
         if (prev['strict'] and op[0] == 'setattr' and op[1] not in ('strict', 'values') and op[1] not in prev['index']
                 and op[1] not in prev['reg']):
             if out not in ('AttributeError', 'NotImplementedError'):
